@@ -500,6 +500,13 @@ func part2(tier, goose, work string, acc *ev.Acc, only string) {
 		"recursive_types":           "package q\n\ntype Node struct {\n\tnext *Node\n\tval  uint64\n}\n\ntype A struct {\n\tb *B\n}\n\ntype B struct {\n\ta *A\n}\n\nfunc Len(n *Node) uint64 {\n\tif n == nil {\n\t\treturn 0\n\t}\n\treturn Len(n.next) + 1\n}\n",
 		"three_cycle":               "package q\n\nfunc F1(n uint64) uint64 {\n\tif n == 0 {\n\t\treturn 1\n\t}\n\treturn F2(n - 1)\n}\n\nfunc F2(n uint64) uint64 {\n\tif n == 0 {\n\t\treturn 2\n\t}\n\treturn F3(n - 1)\n}\n\nfunc F3(n uint64) uint64 {\n\tif n == 0 {\n\t\treturn 3\n\t}\n\treturn F1(n - 1)\n}\n",
 		"same_bad_two_files":        "",
+		// values whose named type lives in the universe scope (error) or in no named struct; a body-less function (stub.s makes it legal Go)
+		"error_value_method":   "package q\n\nimport \"errors\"\n\nfunc Ok() uint64 {\n\treturn 1\n}\n\nfunc Msg() string {\n\treturn errors.New(\"boom\").Error()\n}\n",
+		"error_pointer":        "package q\n\nimport \"errors\"\n\nfunc Ok() uint64 {\n\treturn 1\n}\n\nfunc P() uint64 {\n\te := errors.New(\"boom\")\n\tp := &e\n\tif *p == nil {\n\t\treturn 0\n\t}\n\treturn 1\n}\n",
+		"bodyless_func":        "package q\n\n// implemented in assembly\nfunc External(x uint64) uint64\n\nfunc Ok() uint64 {\n\treturn 1\n}\n",
+		"anon_struct_func":     "package q\n\ntype T struct {\n\tin struct {\n\t\tf func() uint64\n\t}\n}\n\nfunc Use(t *T) uint64 {\n\treturn t.in.f()\n}\n",
+		"generic_append":       "package q\n\nfunc Push[S ~[]uint64](s S) S {\n\treturn append(s, 1)\n}\n",
+		"local_util_dprintf":   "",
 	}
 	var shapeNames []string
 	for n := range shapes {
@@ -514,13 +521,23 @@ func part2(tier, goose, work string, acc *ev.Acc, only string) {
 		if n == "same_bad_two_files" {
 			write(mod, "shape_"+n+"/a.go", "package q\n\nfunc Height(x uint64) uint64 {\n"+badBodies[0]+"}\n\nfunc Width(x uint64) uint64 {\n"+badBodies[0]+"}\n")
 			write(mod, "shape_"+n+"/b.go", "package q\n\nfunc Scale(x uint64) uint64 {\n"+badBodies[0]+"}\n\nfunc Depth(x uint64) uint64 {\n"+badBodies[1]+"}\n")
+		} else if n == "local_util_dprintf" {
+			write(mod, "shape_"+n+"/util/u.go", "package util\n\nfunc DPrintf(msg string) {\n}\n")
+			write(mod, "shape_"+n+"/a.go", "package q\n\nimport \"c07mod/shape_local_util_dprintf/util\"\n\nfunc F() {\n\tutil.DPrintf(\"hello\")\n}\n")
 		} else {
 			write(mod, "shape_"+n+"/a.go", src)
+			if n == "bodyless_func" {
+				write(mod, "shape_"+n+"/stub.s", "")
+			}
 		}
-		for _, ign := range []bool{false, true} {
+		for _, variant := range []int{0, 1, 2, 3} {
+			ign := variant&1 != 0
 			args := []string{"-out", filepath.Join(work, "oshape")}
 			if ign {
 				args = append(args, "-ignore-errors")
+			}
+			if variant&2 != 0 {
+				args = append(args, "-skip-interfaces")
 			}
 			code, stderr := runGoose(goose, mod, append(args, "./shape_"+n)...)
 			acc.Add("evaluations", 1)
@@ -546,7 +563,7 @@ func part2(tier, goose, work string, acc *ev.Acc, only string) {
 				bad = fmt.Sprintf("%d errors reported for 4 bad declarations (three of them fail on the same statement text)", ncat)
 			}
 			if bad != "" {
-				acc.Violate(ev.Violation{Key: "C07/shape/" + n + "/" + fmt.Sprint(ign), Msg: fmt.Sprintf("package %s (-ignore-errors=%v): %s\n%s", n, ign, bad, first(stderr, 25)), Replay: map[string]any{"part": 2, "package": "shape"}})
+				acc.Violate(ev.Violation{Key: "C07/shape/" + n + "/" + fmt.Sprint(ign) + map[bool]string{false: "", true: "/skip-interfaces"}[variant&2 != 0], Msg: fmt.Sprintf("package %s (-ignore-errors=%v -skip-interfaces=%v): %s\n%s", n, ign, variant&2 != 0, bad, first(stderr, 25)), Replay: map[string]any{"part": 2, "package": "shape"}})
 			}
 		}
 	}
